@@ -270,8 +270,11 @@ PROPS["C10"] = {
     ],
 }
 
-def _san(name, world, src, stride):
-    return {"name": name, "world": world, "src": src, "args": ["--stride", str(stride)], "memory_only": True, "share": 0.12}
+def _san(name, world, src, stride, quick_stride=None):
+    j = {"name": name, "world": world, "src": src, "args": ["--stride", str(stride)], "memory_only": True, "share": 0.12}
+    if quick_stride:
+        j["args_quick"] = ["--stride", str(quick_stride)]   # the quick tier thins further so that the job ends within its share
+    return j
 
 PROPS["C08"] = {
     "level": "fault_enumeration",
@@ -289,7 +292,7 @@ PROPS["C08"] = {
         _san("san-codec-w8", "W8-san", "props/C07_codec.c", 16), _san("san-codec-w64", "W64-san", "props/C07_codec.c", 4),
         _san("san-nt-w8", "W8-san", "props/C09_nt.c", 120), _san("san-nt-w64", "W64-san", "props/C09_nt.c", 40),
         _san("san-fpx-w64", "W64-san", "props/C10_fpx.c", 50),
-        _san("san-fb-w8", "W8-san", "props/C16_fb.c", 100), _san("san-fb-w64", "W64-san", "props/C16_fb.c", 20),
+        _san("san-fb-w8", "W8-san", "props/C16_fb.c", 100, 300), _san("san-fb-w64", "W64-san", "props/C16_fb.c", 20),
         _san("san-hash-w64", "W64-san", "props/C14_hash.c", 1), _san("san-drbg-w64", "W64-san", "props/C15_drbg.c", 1),
         {"name": "edge-w64", "world": "W64-san", "src": "props/C08_edge.c", "share": 0.25, "env": {"ASAN_OPTIONS": "detect_leaks=0:handle_segv=1:handle_sigbus=1"}},
         {"name": "edge-w8", "world": "W8-san", "src": "props/C08_edge.c", "share": 0.15, "env": {"ASAN_OPTIONS": "detect_leaks=0:handle_segv=1:handle_sigbus=1"}},
